@@ -644,6 +644,48 @@ func hasUnscoped(steps []Step) bool {
 	return false
 }
 
+// keyVals: the values gorm reads key conditions from for this input (the deleted value and the Model
+// value when it is another one; the Model value for updates), reduced to their key fields: per
+// record one flag per key field, true = the field holds its zero value. Coq runs the model of
+// gorm's key-condition code (C09_Keys) on them.
+func keyVals(in Input) (del bool, vals string) {
+	del = strings.HasPrefix(in.Finisher, "delete")
+	z := func(k int64) string { return lib.Bool(k == 0) }
+	rec := func(fs ...string) string { return "[" + strings.Join(fs, "; ") + "]" }
+	st := func(r string) string { return lib.App("VStruct", r) }
+	sl := func(rs ...string) string { return lib.App("VSlice", "["+strings.Join(rs, "; ")+"]") }
+	list := func(vs ...string) string { return "[" + strings.Join(vs, "; ") + "]" }
+	switch in.Target {
+	case "table_only":
+		return del, "[]" // no schema: no key fields
+	case "model_dest":
+		return del, list(st(rec("true")), st(rec(z(in.PK))))
+	case "composite":
+		if in.Finisher == "delete_model_dest" {
+			return del, list(st(rec("true", "true")), st(rec(z(in.PK), "true")))
+		}
+		return del, list(st(rec(z(in.PK), "true")))
+	case "model_slice_dest":
+		m := sl(rec("true"), rec("true"))
+		if in.PK != 0 {
+			m = sl(rec("false"), rec("true"))
+		} else if len(in.Steps)%2 == 1 {
+			m = sl()
+		}
+		return del, list(st(rec("true")), m)
+	case "slice":
+		k2 := in.PK
+		if k2 != 0 {
+			k2++
+		}
+		return del, list(sl(rec(z(in.PK)), rec(z(k2))))
+	}
+	if in.Finisher == "delete_value_slice" {
+		return del, list(sl(rec(z(in.PK))))
+	}
+	return del, list(st(rec(z(in.PK))))
+}
+
 func term(in Input, o Obs) string {
 	byID := map[int]whr.Atom{}
 	for _, a := range in.Atoms {
@@ -661,8 +703,9 @@ func term(in Input, o Obs) string {
 			calls = append(calls, whr.Call{Kind: "or", Unit: whr.Unit{Form: "empty_map"}})
 		}
 	}
+	kdel, kvals := keyVals(in)
 	return lib.App("mk_case", whr.GTable(in.Atoms, o.Texts), whr.GCalls(calls, byID),
-		lib.Bool(in.Soft), lib.Bool(in.Allow != "off"), lib.Bool(hasUnscoped(in.Steps) || in.AfterRead == "unscoped"), lib.Bool(in.PK != 0),
+		lib.Bool(in.Soft), lib.Bool(in.Allow != "off"), lib.Bool(hasUnscoped(in.Steps) || in.AfterRead == "unscoped"), lib.Bool(kdel), kvals,
 		lib.Bool(o.Missing), lib.Z(int64(o.Execs)), lib.Bool(o.Changed), lib.Bool(o.OtherErr != ""),
 		lib.ListOf([]byte(o.TxEvents), func(b byte) string { return lib.Z(int64(strings.IndexByte("bcr", b))) }))
 }
